@@ -96,6 +96,15 @@ func applyTIFFPredictor2(data []byte, params Params) ([]byte, error) {
 		return nil, fmt.Errorf("invalid predictor geometry: Columns=%d, Colors=%d", columns, colors)
 	}
 
+	if len(data) == 0 {
+		return []byte{}, nil
+	}
+	// Columns and Colors come from the file: a row cannot be longer than the data, and their
+	// product must not wrap around (a wrapped product of zero would divide by zero below).
+	if columns > len(data)/colors {
+		return nil, fmt.Errorf("row size exceeds data size %d (Columns=%d, Colors=%d)", len(data), columns, colors)
+	}
+
 	rowSize := columns * colors
 	if len(data)%rowSize != 0 {
 		return nil, fmt.Errorf("data size %d is not a multiple of row size %d", len(data), rowSize)
@@ -133,6 +142,16 @@ func applyPNGPredictor(data []byte, predictor int, params Params) ([]byte, error
 
 	if columns <= 0 || colors <= 0 {
 		return nil, fmt.Errorf("invalid predictor geometry: Columns=%d, Colors=%d", columns, colors)
+	}
+
+	if len(data) == 0 {
+		return []byte{}, nil
+	}
+	// Columns and Colors come from the file: a row (plus its predictor byte) cannot be longer than
+	// the data, and their product must not wrap around (a wrapped row size of zero would divide by
+	// zero below).
+	if columns > (len(data)-1)/colors {
+		return nil, fmt.Errorf("row size exceeds data size %d (Columns=%d, Colors=%d)", len(data), columns, colors)
 	}
 
 	// PNG predictors work on rows with a predictor byte at the start of each row
